@@ -1,0 +1,29 @@
+//go:build verif
+
+// Machine-checked contracts for package crdt (kv value join). Read by the
+// verifier in /verif (gowp); this file contains no executable code.
+package crdt
+
+//@ spec tomb(v Value) bool = v.TombstoneSinceEpochNanos != 0
+//
+// lwwFirst: the documented kv rule, "first argument wins": a tombstone beats any
+// value; among tombstones the earliest is kept (ties keep the second argument);
+// among values the later modification time wins (ties keep the first argument).
+//@ spec lwwFirst(n Value, o Value) bool = ite(tomb(n) || tomb(o),
+//@     tomb(n) && (!tomb(o) || n.TombstoneSinceEpochNanos < o.TombstoneSinceEpochNanos),
+//@     n.ModEpochNanos >= o.ModEpochNanos)
+
+//@ func (Value).Tombstoned
+//@   ensures result == tomb(v)
+//@   modifies nothing
+
+//@ func LastWriteWins
+//@   requires newValue != nil && oldValue != nil
+//@   ensures  result == ite(lwwFirst(*newValue, *oldValue), newValue, oldValue)
+//@   modifies nothing
+
+//@ func firstTombstoneWins
+//@   requires newValue != nil && oldValue != nil
+//@   requires tomb(*newValue) || tomb(*oldValue)
+//@   ensures  result == ite(lwwFirst(*newValue, *oldValue), newValue, oldValue)
+//@   modifies nothing
